@@ -649,8 +649,13 @@ func (au *audition) setAndActivateVar(
 			if report {
 				au.r.judge(ctx, I, "👉", "%s := %v", vn, val)
 			}
-			if err := au.collectEvent(ctx, evTs, typ, vn, val); err != nil {
-				return err
+			if vn.actorName == "" {
+				// Changes of computed variables (and of t, mood, moodt) are
+				// collected here. Signal samples are not: checkEvent already
+				// forwards each of them to the collector, exactly once.
+				if err := au.collectEvent(ctx, evTs, typ, vn, val); err != nil {
+					return err
+				}
 			}
 		}
 	}
